@@ -254,9 +254,12 @@ func buildHistory(c *Ctx, a *producer, L int, forks []forkSpec) *history {
 		for i := 0; i < fs.length; i++ {
 			if i == 0 {
 				// a block that is not on the trunk makes the branch differ from its first momentum on
+				// (from a DELEGATING account — users 1-3 back pillars 1 and 2 in the mock genesis — to one that backs nobody: the
+				// pillar weights, and with them every election whose proof block lies on the branch, differ from the trunk's)
 				for try := 0; try < 10; try++ {
-					from := c.R.Intn(5)
-					if b, err := a.send(from, (from+1)%5, int64(100000+c.R.Intn(100000))); err == nil && b != nil {
+					from := c.R.Intn(3)
+					if b, err := a.send(from, 3+c.R.Intn(2), int64(100000+c.R.Intn(100000))); err == nil && b != nil {
+						c.Hit("hist-branch-moves-delegated-znn")
 						break
 					}
 				}
@@ -576,6 +579,10 @@ func (r *syncRun) deliverVia(f *syncFollower, kind string, batch []elem, via fun
 	var idx int
 	var err error
 	var pn interface{}
+	if kind != "extend-sync" {
+		// what a running node asks its consensus module and its ledger all the time (s_syncbatches_stale.go)
+		r.preQueries(f)
+	}
 	if via == nil {
 		before = f.hashes()
 		idx, err, pn = f.insertChain(wire(dms))
@@ -700,6 +707,10 @@ func (r *syncRun) deliverVia(f *syncFollower, kind string, batch []elem, via fun
 		if len(after) <= len(before) {
 			c.Fail("C16 class=left-chain-not-longer node left its chain of height %d for one of height %d (fork depth %d, result %s index %d) %s",
 				len(before), len(after), depth, class, idx, desc)
+		}
+		// C06: nothing the node remembers about the abandoned branch answers for the adopted one (s_syncbatches_stale.go)
+		if pn == nil && !r.postSwitch(f, before, after, desc) {
+			ok = false
 		}
 	}
 	// M3: index / verified prefix. All elements before the reported index are the producer's own bytes; on
